@@ -264,11 +264,11 @@ def c05f(tree, ob):
         if isinstance(n, ast.Assign) and any((dotted(t) or '').startswith('ctr.') for t in n.targets):
             muts.append(n)
     ob.site(FRAG, fv.func, '{} raise site(s), {} mutation(s) of the original'.format(len(raises), len(muts)))
+    mutated_raises = []
     for r in raises:
         before = [m for m in muts if fv.node(r) in fv.cfg.reachable([fv.node(m)])]
         if before:
-            ob.violate(FRAG, Q, '{} ... raise {}'.format(src(before[0])[:50], src(r.exc)[:40]),
-                       'the original bundle is already modified ({}) when fragmentation is found impossible'.format(src(before[0])[:50]), r)
+            mutated_raises.append((r, before[0]))
     # Agent.send_bundle: a failed TX step must not reach the sender
     fa = FuncView(tree, AGENT, 'Agent.send_bundle')
     loops = [n for n in walk_local(fa.func) if isinstance(n, ast.For) and src(n.iter) == 'self._tx_chain']
@@ -283,6 +283,12 @@ def c05f(tree, ob):
     if wit is not None:
         ob.violate(AGENT, fa.qual, 'except Exception: ...; break -> ctr.sender(data)', 'after a TX step failed with an exception the bundle is still handed to the convergence layer '
                    '(e.g. whole and oversize when fragmentation raised, or unsigned when a security step raised)', h, path_text(wit))
+        # only then does it matter that the step had already altered the bundle when it raised
+        for (r, m) in mutated_raises:
+            ob.violate(FRAG, Q, '{} ... raise {}'.format(src(m)[:50], src(r.exc)[:40]),
+                       'the original bundle is already modified ({}) when fragmentation is found impossible, and it is then transmitted'.format(src(m)[:50]), r)
+    else:
+        ob.site(AGENT, h, 'a failed TX step stops the send ({} raise site(s) in the fragmenter after a mutation are therefore harmless)'.format(len(mutated_raises)))
 
 
 def c05g(tree, ob):
@@ -298,6 +304,12 @@ def c05g(tree, ob):
                 drops = [c for c in calls_in(func) if isinstance(c.func, ast.Attribute) and c.func.attr == 'remove_payload' and src(c.func.value) == recv]
                 paired = drops and (fv.cfg.must_pass(fv.node(d), fv.cfg.exit, {fv.node(x) for x in drops}, include_exc=False)[0] or any(fv.dominates(x, d)[0] for x in drops))
                 ob.site(rel, d, 'delete of block data in ' + qual)
+                # the opposite intention: the delete follows an edit of the parsed payload of the same block,
+                # so that the data IS regenerated from it (the C11.b pairing)
+                edits = [x for x in walk_local(func) if isinstance(x, (ast.Assign, ast.AugAssign)) and
+                         any(w.startswith(str(recv) + '.payload.') for w in norm.written_names(x))]
+                if recv and edits and any(fv.dominates(x, d)[0] for x in edits):
+                    continue
                 if not paired:
                     ob.violate(rel, qual, src(d), 'the encoded block data is deleted but the parsed payload stays attached, so the data is regenerated on the next encode: '
                                'for a received bundle the "empty payload" fragment measures full size, the budget goes negative and fragmentation fails', d)
